@@ -18,7 +18,12 @@ Grant == [sc : 0..2, kp : SUBSET Keys]
 SmallGrant == [sc : 1..2, kp : {{}, {0}, {1}, {0, 1}}]
 Thr == 0..3
 Ovr == 0..5
-Cfgs(G, maxLen) == [g : UNION {[1..n -> G] : n \in 1..maxLen}, t : Thr, o : Ovr]
+IdOwn == <<0, 1, 2>>
+\* own[j + 1] = the actual key stored at keypair index j: the same public key may be listed at several indexes
+Aliases == {<<0, 0, 2>>, <<0, 1, 0>>, <<0, 1, 1>>, <<0, 0, 0>>}
+Cfgs(G, maxLen) == [g : UNION {[1..n -> G] : n \in 1..maxLen}, t : Thr, o : Ovr, own : {IdOwn}]
+AliasGrant == [sc : 1..2, kp : SUBSET Keys]
+AliasCfgs == [g : UNION {[1..n -> AliasGrant] : n \in 1..2}, t : 0..2, o : {0}, own : Aliases]
 Sc(gr) == IF gr.sc = 0 THEN 1 ELSE gr.sc
 RECURSIVE SumSc(_, _)
 SumSc(g, i) == IF i > Len(g) THEN 0 ELSE Sc(g[i]) + SumSc(g, i + 1)
@@ -28,7 +33,7 @@ MinN(a, b) == IF a < b THEN a ELSE b
 RECURSIVE PlacedBefore(_, _)
 PlacedBefore(c, i) == IF i = 1 THEN 0 ELSE MinN(Total(c), PlacedBefore(c, i - 1) + Sc(c.g[i - 1]))
 PlacedIn(c, i) == MinN(Sc(c.g[i]), Total(c) - PlacedBefore(c, i))
-Decryptable(c, K) == {i \in 1..Len(c.g) : c.g[i].kp \cap K # {}}
+Decryptable(c, K) == {i \in 1..Len(c.g) : \E j \in c.g[i].kp : c.own[j + 1] \in K}
 RECURSIVE SumPlaced(_, _)
 SumPlaced(c, S) == IF S = {} THEN 0 ELSE LET i == CHOOSE x \in S : TRUE IN PlacedIn(c, i) + SumPlaced(c, S \ {i})
 Reach(c, K) == SumPlaced(c, Decryptable(c, K))
@@ -40,15 +45,16 @@ Expected(c, K) == [opens |-> Opens(c, K), avail |-> Reach(c, K), needed |-> c.t 
 
 \* ---- design-level check over the whole bound (C17)
 VARIABLE c
-Init == c \in Cfgs(Grant, 2) \cup Cfgs(SmallGrant, 3)
+AllCfgs == Cfgs(Grant, 2) \cup Cfgs(SmallGrant, 3) \cup AliasCfgs
+Init == c \in AllCfgs
 Next == UNCHANGED c
 Spec == Init /\ [][Next]_c
 AcceptedCanBeOpened == Accepts(c) => Opens(c, Keys)
 MoreKeysNeverHurt == \A K \in SUBSET Keys : Opens(c, K) => Opens(c, Keys)
 
-Table == {[cfg |-> [g |-> [i \in 1..Len(x.g) |-> [sc |-> x.g[i].sc, kp |-> SetToSortSeq(x.g[i].kp, <)]], t |-> x.t, o |-> x.o],
+Table == {[cfg |-> [g |-> [i \in 1..Len(x.g) |-> [sc |-> x.g[i].sc, kp |-> SetToSortSeq(x.g[i].kp, <)]], t |-> x.t, o |-> x.o, own |-> x.own],
            accepts |-> Accepts(x),
-           exp |-> [K \in SUBSET Keys |-> Expected(x, K)]] : x \in Cfgs(Grant, 2) \cup Cfgs(SmallGrant, 3)}
+           exp |-> [K \in SUBSET Keys |-> Expected(x, K)]] : x \in AllCfgs}
 KeySets == SetToSeq(SUBSET Keys)
 ASSUME JsonSerialize(IOEnv.OUT, SetToSeq({[cfg |-> r.cfg, accepts |-> r.accepts,
           exp |-> [k \in 1..Len(KeySets) |-> [keys |-> SetToSortSeq(KeySets[k], <), r |-> r.exp[KeySets[k]]]]] : r \in Table}))
